@@ -50,6 +50,9 @@ func phiEdgesWhere(ph *ssa.Phi, want func([]Cond) bool) (yes, no []ssa.Value) {
 }
 
 func runC01(w *World, r *Report) {
+	hrGetCountFromContext(w, r, "R9")
+	hrGetQuotaByID(w, r, "R8")
+	hrGetHeader(w, r, "R9") // group_by_header names are looked up case-insensitively
 	la := NewLockAn(w)
 	atomicOnly := func(id string) bool {
 		for _, m := range []string{"AtomicWindowReset", "AtomicIncr", "AtomicDecr", "AtomicSAddWithMaxValuesAllowed", "SCard", "SMembers", "SRem", "AtomicWindowResetIn", "AtomicIncWindow", "atomicGetWindow", "setInt64"} {
